@@ -1,29 +1,145 @@
-/- C01 — capacity bound and size accounting (initial: RawLRU; composites are added by the backbone files) -/
-import Caches.Lemmas.RawLru
+/-
+  C01 — capacity bound and size accounting hold in every cache at every step.
+
+  For each of the five caches: every state reachable from a successfully constructed cache by ANY finite history of
+  public operations (`runOps step`, by induction over the history; every capacity ≥ 1, every quota, every key pattern)
+  satisfies the invariant, and the invariant gives: the resident count never exceeds `cap()`, every partition stays
+  within its configured bound, a key is held in at most one partition, `len()` = number of distinct keys for which
+  `contains()` is true, `is_empty()` ⇔ nothing (resident or ghost) is retained. `clone` is part of the history
+  (RawLRU, SLRU); `resize` installs the new bound at once (RawLRU).
+-/
+import Caches.Lemmas.Reach
+set_option linter.unusedSectionVars false
+set_option linter.unusedVariables false
 namespace C01
-open M M.RawLru
+open M
 variable {κ ν : Type} [DecidableEq κ]
 
-/-- a well-formed RawLRU stays within its capacity after `put`, for every capacity (0 included) -/
-theorem rawlru_put_bound (c : RawLru κ ν) (k : κ) (v : ν) (h : c.Inv) :
-    ∃ c' r e, c.put k v = .ok (c', r, e) ∧ c'.items.length ≤ c'.cap ∧ (keys c'.items).Nodup := by
-  obtain ⟨c', r, e, hp, hi, _, _⟩ := put_total_inv c k v h
-  exact ⟨c', r, e, hp, hi.bound, hi.nd⟩
+/-! ### RawLRU -/
+theorem rawlru_reachable (cap : Nat) (cb : Bool) (c0 : RawLru κ ν) (hc : RawLru.new cap cb = some c0)
+    (ops : List (RawOp κ ν)) :
+    ∃ c, runOps RawLru.step c0 ops = .ok c ∧ c.items.length ≤ c.cap ∧ (keys c.items).Nodup := by
+  obtain ⟨c, hr, hi⟩ := runOps_inv RawLru.step RawLru.Inv RawLru.step_inv ops c0 (RawLru.inv_new cap cb c0 hc)
+  exact ⟨c, hr, hi.bound, hi.nd⟩
+
+/-- `len` counts exactly the keys for which `contains` is true; `is_empty` iff nothing is held -/
+theorem rawlru_accounting (c : RawLru κ ν) (h : c.Inv) :
+    c.len = (keys c.items).length ∧ (keys c.items).Nodup ∧ (∀ k, c.contains k = true ↔ k ∈ keys c.items) ∧
+    (c.isEmpty = true ↔ c.items = []) ∧ c.len ≤ c.cap := by
+  refine ⟨by simp [RawLru.len], h.nd, fun k => ?_, by unfold RawLru.isEmpty; simp, h.bound⟩
+  unfold RawLru.contains; exact find_isSome_iff k c.items
 
 /-- the capacity installed by `resize` is enforced at once -/
 theorem rawlru_resize_bound (c : RawLru κ ν) (n : Nat) (h : c.Inv) :
     ∃ c' ev e, c.resize n = .ok (c', ev, e) ∧ c'.items.length ≤ n ∧ c'.cap = n := by
-  obtain ⟨c', ev, e, hr, hi, hc⟩ := resize_total_inv c n h
+  obtain ⟨c', ev, e, hr, hi, hc⟩ := RawLru.resize_total_inv c n h
   exact ⟨c', ev, e, hr, hc ▸ hi.bound, hc⟩
 
-/-- `len` counts exactly the keys for which `contains` is true -/
-theorem rawlru_len_eq_contains (c : RawLru κ ν) (h : c.Inv) :
-    c.len = (keys c.items).length ∧ (keys c.items).Nodup ∧ ∀ k, c.contains k = true ↔ k ∈ keys c.items := by
-  refine ⟨by simp [RawLru.len], h.nd, fun k => ?_⟩
-  unfold RawLru.contains; exact find_isSome_iff k c.items
+/-! ### SegmentedCache -/
+theorem slru_reachable (p q : Nat) (s0 : Slru κ ν) (hc : Slru.new p q = some s0) (ops : List (SlruOp κ ν)) :
+    ∃ s, runOps Slru.step s0 ops = .ok s ∧
+      s.prob.items.length ≤ p ∧ s.prot.items.length ≤ q ∧ s.len ≤ p + q ∧ s.cap = p + q ∧
+      (keys s.prob.items).Nodup ∧ (keys s.prot.items).Nodup ∧ (∀ x, x ∈ keys s.prob.items → x ∉ keys s.prot.items) := by
+  have h0 := Slru.inv_new p q s0 hc
+  obtain ⟨s, hr, hi, hp, hq⟩ := runOps_inv Slru.step (Slru.InvC p q) (Slru.step_invC p q) ops s0 ⟨h0.1, h0.2.1, h0.2.2⟩
+  have b1 := hi.bp; have b2 := hi.bq
+  rw [hp] at b1; rw [hq] at b2
+  exact ⟨s, hr, b1, b2, by unfold Slru.len; omega, by unfold Slru.cap; omega, hi.ndp, hi.ndq, hi.disj⟩
 
-theorem rawlru_isEmpty_iff (c : RawLru κ ν) : c.isEmpty = true ↔ c.items = [] := by
-  unfold RawLru.isEmpty; simp
+theorem slru_accounting (s : Slru κ ν) (h : s.Inv) :
+    s.len = (keys s.prot.items ++ keys s.prob.items).length ∧ (keys s.prot.items ++ keys s.prob.items).Nodup ∧
+    (∀ k, s.contains k = true ↔ k ∈ keys s.prot.items ++ keys s.prob.items) ∧
+    (s.isEmpty = true ↔ s.prot.items = [] ∧ s.prob.items = []) := by
+  refine ⟨by simp [Slru.len], ?_, ?_, ?_⟩
+  · rw [List.nodup_append]
+    exact ⟨h.ndq, h.ndp, fun a ha b hb hab => h.disj b hb (hab ▸ ha)⟩
+  · intro k
+    unfold Slru.contains RawLru.contains
+    simp only [Bool.or_eq_true, find_isSome_iff, List.mem_append]
+  · unfold Slru.isEmpty RawLru.isEmpty; simp
+
+/-! ### TwoQueueCache -/
+theorem twoq_reachable (size : Nat) (rr gr : RatioClass) (rs es : Nat) (q0 : TwoQ κ ν)
+    (hc : TwoQ.new size rr gr rs es = .ok q0) (ops : List (CacheOp κ ν)) :
+    ∃ q, runOps TwoQ.step q0 ops = .ok q ∧
+      q.recent.items.length + q.frequent.items.length ≤ size ∧ q.ghost.items.length ≤ es ∧ q.cap = size ∧
+      (keys q.recent.items).Nodup ∧ (keys q.frequent.items).Nodup ∧ (keys q.ghost.items).Nodup ∧
+      (∀ x, x ∈ keys q.recent.items → x ∉ keys q.frequent.items ∧ x ∉ keys q.ghost.items) ∧
+      (∀ x, x ∈ keys q.frequent.items → x ∉ keys q.ghost.items) := by
+  have h0 := TwoQ.inv_new size rr gr rs es q0 hc
+  have hcfg : q0.size = size ∧ q0.rs = rs ∧ q0.ghost.cap = es := by
+    unfold TwoQ.new at hc
+    repeat (split at hc; · simp at hc)
+    injection hc with hc; subst hc; exact ⟨rfl, rfl, rfl⟩
+  obtain ⟨q, hr, hi, h1, h2, h3⟩ := runOps_inv TwoQ.step (TwoQ.InvC size rs es) (TwoQ.step_invC size rs es) ops q0
+    ⟨h0, hcfg.1, hcfg.2.1, hcfg.2.2⟩
+  have b := hi.bound; have g := hi.gbound
+  rw [h1] at b; rw [h3] at g
+  exact ⟨q, hr, b, g, h1, hi.ndr, hi.ndf, hi.ndg, fun x hx => ⟨hi.drf x hx, hi.drg x hx⟩, hi.dfg⟩
+
+theorem twoq_accounting (q : TwoQ κ ν) (h : q.Inv) :
+    q.len = (keys q.frequent.items ++ keys q.recent.items).length ∧ (keys q.frequent.items ++ keys q.recent.items).Nodup ∧
+    (∀ k, q.contains k = true ↔ k ∈ keys q.frequent.items ++ keys q.recent.items) ∧
+    (q.isEmpty = true ↔ q.frequent.items = [] ∧ q.recent.items = [] ∧ q.ghost.items = []) ∧ q.len ≤ q.cap := by
+  refine ⟨by simp [TwoQ.len]; omega, ?_, ?_, ?_, by unfold TwoQ.len TwoQ.cap; exact h.bound⟩
+  · rw [List.nodup_append]
+    exact ⟨h.ndf, h.ndr, fun a ha b hb hab => h.drf b hb (hab ▸ ha)⟩
+  · intro k
+    unfold TwoQ.contains RawLru.contains
+    simp only [Bool.or_eq_true, find_isSome_iff, List.mem_append]
+  · unfold TwoQ.isEmpty RawLru.isEmpty; simp [and_assoc]
+
+/-! ### AdaptiveCache -/
+theorem arc_reachable (size : Nat) (a0 : Arc κ ν) (hc : Arc.new size = some a0) (ops : List (CacheOp κ ν)) :
+    ∃ a, runOps Arc.step a0 ops = .ok a ∧
+      a.recent.items.length + a.frequent.items.length ≤ size ∧ a.recentEvict.items.length ≤ size ∧
+      a.frequentEvict.items.length ≤ size ∧ a.p ≤ size ∧ a.cap = size ∧ a.Inv := by
+  have h0 := Arc.inv_new size a0 hc
+  obtain ⟨a, hr, hi, h1⟩ := runOps_inv Arc.step (Arc.InvC size) (Arc.step_invC size) ops a0 ⟨h0.1, h0.2.1⟩
+  have b := hi.bound; have b1 := hi.b1bound; have b2 := hi.b2bound; have pl := hi.ple
+  rw [h1] at b b1 b2 pl
+  exact ⟨a, hr, b, b1, b2, pl, h1, hi⟩
+
+theorem arc_accounting (a : Arc κ ν) (h : a.Inv) :
+    a.len = (keys a.recent.items ++ keys a.frequent.items).length ∧ (keys a.recent.items ++ keys a.frequent.items).Nodup ∧
+    (∀ k, a.contains k = true ↔ k ∈ keys a.recent.items ++ keys a.frequent.items) ∧
+    (a.isEmpty = true ↔ a.recent.items = [] ∧ a.recentEvict.items = [] ∧ a.frequent.items = [] ∧ a.frequentEvict.items = []) ∧
+    a.len ≤ a.cap ∧
+    (∀ x, x ∈ keys a.recent.items ++ keys a.frequent.items → x ∉ keys a.recentEvict.items ∧ x ∉ keys a.frequentEvict.items) ∧
+    (∀ x, x ∈ keys a.recentEvict.items → x ∉ keys a.frequentEvict.items) := by
+  refine ⟨by simp [Arc.len], ?_, ?_, ?_, by unfold Arc.len Arc.cap; exact h.bound, ?_, h.db⟩
+  · rw [List.nodup_append]
+    exact ⟨h.nd1, h.nd2, fun x hx b hb hab => h.d12 x hx (hab ▸ hb)⟩
+  · intro k
+    unfold Arc.contains RawLru.contains
+    simp only [Bool.or_eq_true, find_isSome_iff, List.mem_append]
+  · unfold Arc.isEmpty RawLru.isEmpty; simp [and_assoc]
+  · intro x hx
+    rcases List.mem_append.1 hx with hx | hx
+    · exact ⟨h.d1b1 x hx, h.d1b2 x hx⟩
+    · exact ⟨h.d2b1 x hx, h.d2b2 x hx⟩
+
+/-! ### WTinyLFUCache (for every key hasher `kh`) -/
+theorem wtinylfu_reachable (kh : κ → UInt64) (w p q : Nat) (c0 : WTinyLfu κ ν) (h0 : WTinyLfu.InvC w p q c0)
+    (ops : List (CacheOp κ ν)) :
+    ∃ c, runOps (WTinyLfu.step kh) c0 ops = .ok c ∧
+      c.window.items.length ≤ w ∧ c.main.prob.items.length ≤ p ∧ c.main.prot.items.length ≤ q ∧
+      c.len ≤ w + p + q ∧ c.cap = w + (q + p) ∧
+      (keys c.window.items).Nodup ∧ (∀ x, x ∈ keys c.window.items → x ∉ keys c.main.prob.items ∧ x ∉ keys c.main.prot.items) ∧
+      (∀ x, x ∈ keys c.main.prob.items → x ∉ keys c.main.prot.items) := by
+  obtain ⟨c, hr, hi, h1, h2, h3⟩ := runOps_inv (WTinyLfu.step kh) (WTinyLfu.InvC w p q) (WTinyLfu.step_invC kh w p q) ops c0 h0
+  have b0 := hi.wb; have b1 := hi.mi.bp; have b2 := hi.mi.bq
+  rw [h1] at b0; rw [h2] at b1; rw [h3] at b2
+  refine ⟨c, hr, b0, b1, b2, by unfold WTinyLfu.len RawLru.len Slru.len; omega,
+    by unfold WTinyLfu.cap Slru.cap; rw [h1, h2, h3], hi.wnd, ?_, hi.mi.disj⟩
+  intro x hx
+  exact ⟨fun hc => hi.dw x hx (Or.inl hc), fun hc => hi.dw x hx (Or.inr hc)⟩
+
+/-- a freshly built W-TinyLFU (non-zero capacities, well-formed estimator) satisfies the invariant -/
+theorem wtinylfu_init (w p q : Nat) (est : TinyLfu) (m : Slru κ ν) (hw : 0 < w) (hm : Slru.new p q = some m) (he : est.WF) :
+    WTinyLfu.InvC w p q ({ est := est, window := { cap := w, items := [] }, main := m } : WTinyLfu κ ν) := by
+  have h0 := Slru.inv_new p q m hm
+  exact ⟨⟨by simp, by simp, hw, h0.1, by simp, he⟩, rfl, h0.2.1, h0.2.2⟩
 
 example : (⟨1, [(1, 10)], false⟩ : RawLru Nat Nat).Inv := ⟨by decide, by decide⟩
 end C01
